@@ -19,13 +19,16 @@ def one(sd):
             return sd, "patch does not apply", {}, {}
         known = load_known()
         alarms, errors = {}, {}
+        want = [x for x in os.environ.get('RF_PROPS', '').split(',') if x]
         for pr in sorted(props.PROPS):
+            if want and pr not in want:
+                continue
             run = Run(Repo(td), pr).execute()
             vs = [v for v in run.all_violations() if not match_known(v, pr, known)]
             if vs:
-                alarms[pr] = sorted({v.key for v in vs})[:4] + [vs[0].message[:200]]
+                alarms[pr] = sorted({v.key for v in vs})[:4] + [vs[0].message[:int(os.environ.get('RF_MSG', '200'))]]
             if run.errors():
-                errors[pr] = [f"{r}: {e[:200]}" for r, e in run.errors()][:3]
+                errors[pr] = [f"{r}: {e[:int(os.environ.get('RF_MSG', '200'))]}" for r, e in run.errors()][:3]
         return sd, "clean" if not alarms and not errors else ("FALSE-ALARM" if alarms else "analysis-error"), alarms, errors
     finally:
         shutil.rmtree(td, ignore_errors=True)
